@@ -4,6 +4,7 @@ import (
 	"bytes"
 	"context"
 	"fmt"
+	"time"
 
 	"verifharness/world"
 )
@@ -11,7 +12,35 @@ import (
 // CheckFullNode verifies W2 on a full node against the proposer's chain.
 // prevHeight is the height observed at the previous check (monotonicity); final demands
 // that the node has reached everything it received both parts for.
+//
+// A complaint is confirmed before it is returned: the barriers of the driver know the node's loops as they are
+// today (one goroutine per loop); a node that hands items from one stage to the next asynchronously may still be
+// working when a barrier has returned, and what the oracle saw then was a state in motion. So on a complaint the
+// check waits (a few milliseconds, doubling, with the sync barrier in between), looks again, and reports only what is
+// still wrong when the picture has stopped changing. Nothing a correct node does is undone by waiting, so no genuine
+// complaint gets lost: a block applied too early stays applied, a node that is stuck stays stuck.
 func CheckFullNode(ctx context.Context, f *world.FN, prevHeight uint64, final bool, hit func(string)) (uint64, []Problem) {
+	h, probs := checkFullNodeOnce(ctx, f, prevHeight, final, hit)
+	if len(probs) == 0 {
+		return h, probs
+	}
+	quiet := func(string) {}
+	for i := 0; i < 6; i++ {
+		time.Sleep(time.Duration(2<<i) * time.Millisecond)
+		if f.L.SyncBarrier() != nil {
+			break
+		}
+		h2, probs2 := checkFullNodeOnce(ctx, f, prevHeight, final, quiet)
+		if len(probs2) == 0 {
+			hit("complaint-gone-after-the-node-settled")
+			return h2, nil
+		}
+		h, probs = h2, probs2
+	}
+	return h, probs
+}
+
+func checkFullNodeOnce(ctx context.Context, f *world.FN, prevHeight uint64, final bool, hit func(string)) (uint64, []Problem) {
 	var probs []Problem
 	add := func(c string, h uint64, format string, a ...any) {
 		probs = append(probs, Problem{c, h, fmt.Sprintf(format, a...)})
